@@ -140,9 +140,7 @@ Qed.
 
 Lemma ceq_work_free : forall s1 s2, ceq s1 s2 -> ceq (work_free s1) (work_free s2).
 Proof.
-  intros s1 s2 H. pose proof H as (Hw & Hn & Hd & Hk). unfold work_free. rewrite Hw.
-  destruct (ps_which s2 =? SYSTEM) eqn:EW; [assumption|].
-  rewrite Hk by (rewrite Hw; exact EW). apply ceq_set_stack; assumption.
+  intros s1 s2 H. unfold work_free. exact H.
 Qed.
 
 (* ---------------------------------------------------------------------- MemInit, refact = NO *)
@@ -360,7 +358,7 @@ Proof.
 Qed.
 
 Lemma work_free_frame : forall s, ps_glu (work_free s) = ps_glu s /\ ps_exp (work_free s) = ps_exp s /\ ps_which (work_free s) = ps_which s.
-Proof. intros s; unfold work_free; destruct (ps_which s =? SYSTEM); repeat split; reflexivity. Qed.
+Proof. intros s; unfold work_free; repeat split; reflexivity. Qed.
 
 Lemma glu_work_free : forall s, ps_glu (work_free s) = ps_glu s.
 Proof. intros s; apply work_free_frame. Qed.
@@ -459,7 +457,7 @@ Proof.
     split.
     { unfold finalize_exp. eapply ceq_cong; [apply core_set_exp|apply core_set_exp|]. apply ceq_work_free.
       eapply ceq_cong; [apply core_set_bmod|apply core_set_bmod|exact W]. }
-    unfold finalize_exp; simpl. rewrite !glu_work_free. simpl. rewrite G1, G2. repeat split; congruence.
+    unfold finalize_exp; simpl. rewrite ?glu_work_free. simpl. rewrite ?G1, ?G2. repeat split; congruence.
   - destruct W as [W ->]. destruct F1 as [G1 D1], F2 as [G2 D2]. simpl.
     pose proof W as (_ & _ & Hd & _). rewrite G1, G2, Hd, L1, L2, U1, U2, HL. reflexivity.
 Qed.
@@ -796,13 +794,13 @@ Proof.
 Qed.
 
 Lemma work_free_arr : forall s, arr (work_free s) = arr s.
-Proof. intros s; unfold work_free; destruct (ps_which s =? SYSTEM); reflexivity. Qed.
+Proof. intros s; unfold work_free; reflexivity. Qed.
 
 Lemma which_work_free : forall s, ps_which (work_free s) = ps_which s.
 Proof. intros s; apply work_free_frame. Qed.
 
 Lemma noexp_work_free : forall s, ps_no_expand (work_free s) = ps_no_expand s.
-Proof. intros s; unfold work_free; destruct (ps_which s =? SYSTEM); reflexivity. Qed.
+Proof. intros s; unfold work_free; reflexivity. Qed.
 
 (* ---- the tail of p?gstrf: what the numerical phase reads, what is left behind *)
 Lemma gstrf_tail_done : forall s m a sym p x y t r,
@@ -820,15 +818,15 @@ Proof.
   destruct WA as [WA1 WA2], WF as [WF1 WF2]. cbv zeta. intros H; inversion H; subst; clear H.
   unfold finalize_exp. cbn [fr_vals fr_pat fr_sym fr_permc fr_u fr_usepr fr_permr_in fr_nzlmax fr_nzumax fr_store fr_tmp].
   assert (E1 : forall q f b c, ps_glu (set_exp (work_free (set_bmod w f b c)) false q q q q q) = ps_glu m)
-    by (intros; cbn [ps_glu set_exp]; rewrite glu_work_free; exact WF1).
+    by (intros; cbn [ps_glu set_exp]; rewrite ?glu_work_free; exact WF1).
   repeat split; try reflexivity.
   - destruct (fa_usepr a =? c_YES) eqn:E; [reflexivity|]. intros X. rewrite X in E. discriminate E.
   - cbn [ps_glu set_bmod]. rewrite WF1. reflexivity.
   - cbn [ps_which set_bmod ps_stack]. rewrite WA2. change (k_array (ps_stack w)) with (arr w). rewrite WA1. reflexivity.
-  - cbn [ps_glu set_exp]. rewrite glu_work_free. exact WF1.
-  - cbn [ps_which set_exp]. rewrite which_work_free. exact WA2.
+  - cbn [ps_glu set_exp]. rewrite ?glu_work_free. exact WF1.
+  - cbn [ps_which set_exp]. rewrite ?which_work_free. exact WA2.
   - unfold arr. cbn [ps_stack set_exp]. change (k_array (ps_stack (work_free ?z))) with (arr (work_free z)).
-    rewrite work_free_arr. exact WA1.
+    rewrite ?work_free_arr. exact WA1.
 Qed.
 
 Lemma gstrf_tail_workfail : forall s m a sym p x y t v,
